@@ -214,6 +214,17 @@ pub fn generate(rng: &mut Rng, thorough: bool) -> Vec<String> {
         v.push(format!("untildays {y1} {m1} {d1} {y2} {m2} {d2}"));
         v.push(format!("cmpdate {y1} {m1} {d1} {y2} {m2} {d2}"));
     }
+    // (4a) distances in weeks, months and years as well as days, in both directions (the week count and the
+    // leftover days must add up to the day distance, with one sign)
+    for _ in 0..(if thorough { 6000 } else { 800 }) {
+        let a = rng.range(-60_000, 60_000);
+        let b = a + match rng.below(3) { 0 => rng.range(-80, 80), 1 => rng.range(-800, 800), _ => rng.range(-40_000, 40_000) };
+        let (y1, m1, d1) = ymd_of(a);
+        let (y2, m2, d2) = ymd_of(b);
+        let l = *rng.pick(&["week", "week", "day", "month", "year"]);
+        v.push(format!("pd_until {y1} {m1} {d1} {y2} {m2} {d2} {l} - - -"));
+        v.push(format!("pd_since {y1} {m1} {d1} {y2} {m2} {d2} {l} - - -"));
+    }
     // (4b) the longest offsets: from the first days to the last days and back (200 000 001 days is the longest legal
     // distance), and one and two days beyond
     for a in [LO, LO + 1, LO + 2, HI, HI - 1, HI - 2] {
